@@ -474,7 +474,28 @@ impl Check {
                     std::process::exit(2);
                 }
             };
-            let (v, known) = self.judge(&sec, &c);
+            // under the monitor: a replayed case that does not finish ends with a verdict too
+            let (v, known) = {
+                let slots: Vec<Busy<C>> = vec![Busy::new()];
+                let (slots, this, secr) = (&slots, &*self, &sec);
+                let c = c.clone();
+                let remaining = std::sync::atomic::AtomicUsize::new(1);
+                let remaining = &remaining;
+                let t0 = Instant::now();
+                std::thread::scope(|scope| {
+                    scope.spawn(move || watch_cases(this, secr.name, t0, slots, remaining));
+                    scope
+                        .spawn(move || {
+                            let _done = Countdown(remaining);
+                            slots[0].enter(t0, &c);
+                            let r = this.judge(secr, &c);
+                            slots[0].leave();
+                            r
+                        })
+                        .join()
+                        .unwrap_or_else(|_| (Verdict::fail(format!("{}:{}:panic-in-harness", this.id, secr.name), "the replay thread panicked".to_string()), None))
+                })
+            };
             if let Some(k) = known {
                 println!(
                     "KNOWN-FINDING: property={} {}",
